@@ -20,7 +20,7 @@ ab*
 .|\n
 ''')
 
-E('escapes', 'basic esc e1', r'''
+E('escapes', 'basic esc e1 8bit', r'''
 %%
 \n\t
 \x41\102
@@ -114,7 +114,7 @@ E('posix2', 'ccl posix', r'''
 [[:lower:]][[:upper:]]
 ''')
 
-E('posixneg', 'ccl posix 8bit', r'''
+E('posixneg', 'ccl posix', r'''
 %%
 [[:^alpha:]]x
 [[:^digit:]]y
